@@ -227,6 +227,10 @@ def run_c03(ctx) -> Corr:
     account(corr, hists, impl, lambda h, op, before, o: not o["out"].startswith("ok"))
     _stream_bytes(corr, ctx)
     _concurrent_sends(corr, ctx)
+    # the whole pipeline bytes -> StreamTransport.read -> listen -> handler -> send -> StreamTransport.write on one real
+    # stream transport, as multi-step byte histories (what is stored from one line is written back because of a later one)
+    from . import bytepipe
+    bytepipe.run(corr, ctx)
     return corr
 
 
